@@ -251,7 +251,10 @@ class P:
             k, v = self.peek()
             if v == "as" and k == "id":
                 self.eat()
+                start = self.i
                 self.cast_ty()
+                ty = " ".join(x[1] for x in self.t[start:self.i])
+                lhs = ("cast", lhs, ty)
                 continue
             if k == "op" and v in BINPREC and BINPREC[v] > prec:
                 # `&` / `*` / `-` at statement start are unary, but here we are after an operand
@@ -587,6 +590,14 @@ class Lower:
             return k(".".join("Repr" if x == "Self" else x for x in p))
         if t == "deref":
             return self.ex(e[1], k, ind)
+        if t == "cast":
+            ty = e[2]
+            if ty in ("usize", "u64", "u128") or ty.startswith(("*", "&")):
+                return self.ex(e[1], k, ind)          # widening / pointer casts: the value is unchanged
+            bits = {"u8": 8, "u16": 16, "u32": 32}.get(ty)
+            if bits is None:
+                raise Bad(f"cast to {ty}")
+            return self.ex(e[1], lambda a: self.bindc(f"cast_to {bits} {a}", k, ind), ind)
         if t == "field":
             if self.is_self(e[1]) and e[2] == "0":
                 return self.bindc("Repr.field_0", k, ind)
@@ -612,8 +623,11 @@ class Lower:
                 def after2(b):
                     if op in cmp_:
                         return k(f"(decide ({a} {cmp_[op]} {b}))")
-                    if op in ("+", "-", "*", "/", "%"):
-                        return k(f"({a} {op} {b})")
+                    if op in ("+", "-", "*", "/"):
+                        fn = {"+": "arith_add", "-": "arith_sub", "*": "arith_mul", "/": "arith_div"}[op]
+                        return self.bindc(f"{fn} {a} {b}", k, ind)
+                    if op == "%":
+                        return k(f"({a} % {b})")
                     if op == "|":
                         return k(f"({a} ||| {b})")
                     if op == "&":
